@@ -37,7 +37,9 @@ ASSUMPTIONS = ['floats are rationals; comparison tolerance 1e-9 relative (1e-12 
 RULE = ('corpus first; four case families: (wave) Wavefront(tilt=) with 0..4 entries; (shift) Field.shift of 0..5 angular/dispersive elements, per-axis or scalar or missing pixel '
         'scale, both indexings, permuted orders; (fit) fit_tilt on monolithic and 2-3 segment pupils <= 8x8 after 0..2 OPD '
         'updates; (prop) pupils <= 8x8, monolithic or 2-3 segments with per-segment tilts, 1..4 global tilt elements in '
-        'several orderings, total displacement from 0.1 px to 1.5x the output, per-axis dx/du, oversample 1..3, each case '
+        'several orderings, total displacement from 0.1 px to 1.5x the output (40% of the cases with the displaced window '
+        'straddling the edge of the output: |s| in (S/2-P/2, S/2+P/2) per axis and sign), scalar/per-axis/int/tuple argument '
+        'forms, optional output mask, one-segment 3-d masks, the same plane objects re-used across all chains of a case, per-axis dx/du, oversample 1..3, each case '
         'propagated as OPD ramp / Tilt planes (1-3 orderings, before and after the pupil) / Wavefront(tilt=) / fit_tilt after 0..2 OPD '
         'updates / mixed (wavefront tilt + fitted OPD + planes); non-trivial = non-zero tilt')
 
@@ -248,13 +250,13 @@ def gen_fit(rng, tier):
                         out[i][j] = out[i][j] + v if mk[i][j] else v
         return [[str(v) for v in row] for row in out]
     return {'op': 'fit', 'm': m, 'n': n, 'masks': masks, 'dx': dx, 'opd': rnd_opd(),
-            'deltas': [rnd_opd() for _ in range(nupd)], 'degenerate': deg}
+            'deltas': [rnd_opd() for _ in range(nupd)], 'degenerate': deg, 'mask3d': nseg == 1 and rng.random() < 0.2}
 
 
 def gen_prop(rng, tier):
     hi = 6 if tier == 'quick' else 8
-    m, n = rng.randint(3, hi), rng.randint(3, hi)
-    nseg = rng.choice([1, 1, 2, 3])
+    m, n = rng.randint(2, hi), rng.randint(2, hi)
+    nseg = rng.choice([1, 1, 2, 3]) if min(m, n) >= 3 else 1
     masks = rnd_masks(rng, m, n, nseg)
     amp = [[rng.randint(1, 3) for _ in range(n)] for _ in range(m)]
     wl = rng.choice(['1', '1/2', '2'])
@@ -273,6 +275,17 @@ def gen_prop(rng, tier):
     def angle(pr, pc):
         # the angles whose image displacement is (pr, pc) samples: +x tilt -> +row, +y tilt -> -column
         return str(pr * F(du[0]) / (zf * osf)), str(-pc * F(du[1]) / (zf * osf))
+    def edge_px(ax):
+        # a displacement between S/2 - P/2 and S/2 + P/2: the displaced window straddles the edge of the output
+        S_ = shape[ax] * os_
+        P_ = (prop_shape or shape)[ax] * os_
+        lo, hi = F(S_ - P_, 2), F(S_ + P_, 2)
+        if rng.random() < 0.5:
+            lo = max(lo, F(S_, 2))
+        k = rng.randint(int(lo * 8) + 1, max(int(lo * 8) + 1, int(hi * 8) - 1))
+        return F(k, 8) * rng.choice([1, -1])
+    edge = rng.random() < 0.4
+    edge_seg = edge and nseg > 1 and rng.random() < 0.5          # the large tilt belongs to one segment only
     seg = []
     for _ in range(nseg):
         if nseg == 1 or rng.random() < 0.25:
@@ -281,22 +294,47 @@ def gen_prop(rng, tier):
             seg.append(list(angle(rnd_px(rng, span) / 2, rnd_px(rng, span) / 2)))
     ne = rng.choice([1, 1, 2, 3, 4])
     elems = []
-    for _ in range(ne):
-        if rng.random() < 0.75:
-            a, b = angle(rnd_px(rng, span) / ne, rnd_px(rng, span) / ne)
+    if edge:
+        t = rng.random()
+        target = [edge_px(0) if t < 0.7 else rnd_px(rng, span) / 4, edge_px(1) if t > 0.3 else rnd_px(rng, span) / 4]
+        if edge_seg:
+            seg[rng.randrange(nseg)] = list(angle(target[0], target[1]))
+            target = [rnd_px(rng, span) / 8, rnd_px(rng, span) / 8]
+        wts = {1: [F(1)], 2: [F(3, 2), F(-1, 2)], 3: [F(1, 2), F(1, 4), F(1, 4)], 4: [F(1, 2), F(3, 4), F(-1, 2), F(1, 4)]}[ne]
+        rng.shuffle(wts)
+        for wt in wts:
+            a, b = angle(target[0] * wt, target[1] * wt)
             elems.append(['ang', a, b])
-        else:
-            elems.append(rnd_disp(rng, wl, F(du[1]) * span / (2 * osf * ne)))
+    else:
+        for _ in range(ne):
+            if rng.random() < 0.75:
+                a, b = angle(rnd_px(rng, span) / ne, rnd_px(rng, span) / ne)
+                elems.append(['ang', a, b])
+            else:
+                elems.append(rnd_disp(rng, wl, F(du[1]) * span / (2 * osf * ne)))
     orders = []
     for _ in range(rng.choice([1, 2, 3])):
         perm = list(range(ne))
         rng.shuffle(perm)
         orders.append({'perm': perm, 'before': rng.randint(0, ne)})
+    # legal argument forms: scalar vs per-axis pixel scale, int vs tuple shapes, a one-segment 3-d mask, integer
+    # amplitude, an output mask (its bounding box is the output box)
+    S0, S1 = shape[0] * os_, shape[1] * os_
+    omask = None
+    if rng.random() < 0.2:
+        r0, c0 = rng.randrange(S0), rng.randrange(S1)
+        omask = [r0, rng.randint(r0, S0 - 1), c0, rng.randint(c0, S1 - 1), rng.random() < 0.5]
+    forms = {'du_scalar': du[0] == du[1] and rng.random() < 0.5,
+             'shape_int': shape[0] == shape[1] and rng.random() < 0.5,
+             'prop_int': prop_shape is not None and prop_shape[0] == prop_shape[1] and rng.random() < 0.5,
+             'mask3d': nseg == 1 and rng.random() < 0.2,
+             'amp_int': rng.random() < 0.3,
+             'omask': omask}
     nupd = rng.choice([0, 1, 2])
     w = [F(1)] if nupd == 0 else ([F(1, 2), F(1, 2)] if nupd == 1 else [F(1, 2), F(1, 4), F(1, 4)])
     return {'op': 'prop', 'm': m, 'n': n, 'masks': masks, 'amp': amp, 'base': base, 'wl': wl, 'dx': dx, 'du': du,
             'z': z, 'os': os_, 'shape': shape, 'prop_shape': prop_shape, 'seg': seg, 'elems': elems,
-            'orders': orders, 'weights': [str(x) for x in w]}
+            'orders': orders, 'weights': [str(x) for x in w], 'edge': bool(edge), 'forms': forms}
 
 
 def gen_wave(rng):
@@ -306,7 +344,7 @@ def gen_wave(rng):
     else:
         k = 2 if t < 0.7 else rng.choice([0, 1, 3, 4])
         tilt = [str(rq(rng, (1, 2, 4, 8, 10))) for _ in range(k)]
-    return {'op': 'wave', 'tilt': tilt, 'z': str(rng.choice([F(2), F(8), F(5, 2)])), 'du': [rng.choice(PS_ANY), rng.choice(PS_ANY)],
+    return {'op': 'wave', 'form': rng.choice(['list', 'tuple', 'array']), 'tilt': tilt, 'z': str(rng.choice([F(2), F(8), F(5, 2)])), 'du': [rng.choice(PS_ANY), rng.choice(PS_ANY)],
             'os': rng.choice([1, 2, 3])}
 
 
@@ -329,7 +367,9 @@ def classify(c):
         return f'fit/seg{len(c["masks"])}/upd{len(c["deltas"])}' + ('/degenerate' if c.get('degenerate') else '')
     if c['op'] == 'wave':
         return 'wave/' + ('none' if c['tilt'] is None else f'len{len(c["tilt"])}')
-    return f'prop/seg{len(c["masks"])}/el{len(c["elems"])}/os{c["os"]}' + ('/aniso' if c['du'][0] != c['du'][1] else '')
+    return (f'prop/seg{len(c["masks"])}/el{len(c["elems"])}/os{c["os"]}' + ('/aniso' if c['du'][0] != c['du'][1] else '')
+            + ('/edge' if c.get('edge') else '') + ('/omask' if (c.get('forms') or {}).get('omask') else '')
+            + ('/mask3d' if (c.get('forms') or {}).get('mask3d') else ''))
 
 
 def nontrivial(c):
@@ -376,7 +416,7 @@ def prop_setup(c):
 
 
 def rep_names(c):
-    return ['opd'] + [f'plane{k}' for k in range(len(c['orders']))] + ['wavefront', 'fit', 'mixed']
+    return ['opd'] + [f'plane{k}' for k in range(len(c['orders']))] + ['wavefront', 'fit', 'mixed', 'again']
 
 
 def mixed_parts(c, st):
@@ -464,6 +504,7 @@ def encode(c):
         mo = st['base'] + st['seg_ramps'] + st['gm'] * ramp(c['m'], c['n'], a1, b1, c['dx'])
         items = [enc_fitplane(c['dx'], st['masks'], mo, [])] + [[0] + enc_tilt(e) for e in rest]
         chains.append([1, 2] + C.enc_q(a0) + C.enc_q(b0) + [len(items)] + [x for it in items for x in it])
+        chains.append(list(chains[1]))                                                  # again = plane0
         out = [3] + enc_f(c['z']) + enc_f(c['wl']) + enc_ps(list(c['du'])) + enc_f(c['os']) + [len(chains)]
         for ch in chains:
             out += ch
@@ -509,9 +550,20 @@ def decode(c, ints):
 # ------------------------------------------------------------------ implementation side
 def mk_pupil(lentil, c, st, opd):
     masks = st['masks']
-    mask = masks[0] if len(masks) == 1 else np.array(masks)
-    return lentil.Pupil(amplitude=st['amp'].copy(), opd=np.array(opd, dtype=float), mask=mask.copy(),
+    fm = c.get('forms') or {}
+    mask = (np.array(masks) if fm.get('mask3d') else masks[0]) if len(masks) == 1 else np.array(masks)
+    amp = st['amp'].astype(int) if fm.get('amp_int') else st['amp'].copy()
+    return lentil.Pupil(amplitude=amp, opd=np.array(opd, dtype=float), mask=mask.copy(),
                         pixelscale=(fl(c['dx'][0]), fl(c['dx'][1])), focal_length=st['z'])
+
+
+def out_mask(c):
+    r0, r1, c0, c1, hole = c['forms']['omask']
+    mk = np.zeros((c['shape'][0] * c['os'], c['shape'][1] * c['os']))
+    mk[r0:r1 + 1, c0:c1 + 1] = 1
+    if hole and r1 - r0 >= 2 and c1 - c0 >= 2:
+        mk[r0 + 1:r1, c0 + 1:c1] = 0          # the bounding box stays the same
+    return mk
 
 
 def windows_of(out):
@@ -524,8 +576,12 @@ def run_rep(lentil, c, st, wave_tilt, planes):
     for p in planes:
         w = w * p
     du = (fl(c['du'][0]), fl(c['du'][1]))
-    kw = dict(pixelscale=du, shape=tuple(c['shape']), oversample=c['os'],
-              prop_shape=None if c['prop_shape'] is None else tuple(c['prop_shape']))
+    fm = c.get('forms') or {}
+    kw = dict(pixelscale=du[0] if fm.get('du_scalar') else du,
+              shape=c['shape'][0] if fm.get('shape_int') else tuple(c['shape']), oversample=c['os'],
+              prop_shape=None if c['prop_shape'] is None else (c['prop_shape'][0] if fm.get('prop_int') else tuple(c['prop_shape'])))
+    if fm.get('omask'):
+        kw['mask'] = out_mask(c)
     shifts = [[float(v) for v in f.shift(z=w.focal_length, wavelength=w.wavelength, pixelscale=du, oversample=c['os'])]
               for f in w.data]
     tilts = [[stored(t) for t in f.tilt] for f in w.data]
@@ -561,7 +617,7 @@ def run_impl(c):
             return {'err': type(e).__name__}
     if c['op'] == 'fit':
         masks = [np.array(mk, dtype=float) for mk in c['masks']]
-        mask = masks[0] if len(masks) == 1 else np.array(masks)
+        mask = (np.array(masks) if c.get('mask3d') else masks[0]) if len(masks) == 1 else np.array(masks)
         try:
             p = lentil.Pupil(amplitude=sum(masks), opd=frac_arr(c['opd']), mask=mask,
                              pixelscale=(fl(c['dx'][0]), fl(c['dx'][1])), focal_length=1.0)
@@ -577,7 +633,12 @@ def run_impl(c):
             return {'err': type(e).__name__}
     if c['op'] == 'wave':
         try:
-            w = lentil.Wavefront(1.0, tilt=None if c['tilt'] is None else [fl(v) for v in c['tilt']])
+            tv = None if c['tilt'] is None else [fl(v) for v in c['tilt']]
+            if tv is not None and c.get('form') == 'tuple':
+                tv = tuple(tv)
+            elif tv is not None and c.get('form') == 'array':
+                tv = np.array(tv, dtype=float)
+            w = lentil.Wavefront(1.0, tilt=tv)
             f = w.data[0]
             return {'tilts': [stored(t) for t in f.tilt],
                     'shift': [float(v) for v in f.shift(z=fl(c['z']), wavelength=1.0, pixelscale=(fl(c['du'][0]), fl(c['du'][1])),
@@ -595,11 +656,16 @@ def run_impl(c):
             except Exception as e:
                 res[name] = {'err': type(e).__name__ + ': ' + str(e)[:200]}
         guard('opd', lambda: run_rep(lentil, c, st, None, [mk_pupil(lentil, c, st, opd_seg + st['glob_ramp'])]))
+        # one history in one process: the same element objects and the same pupil object serve every chain
+        objs = [tilt_obj(lentil, e) for e in c['elems']]
+        pupil = mk_pupil(lentil, c, st, opd_seg)
+
+        def plane_chain(o):
+            es = [objs[i] for i in o['perm']]
+            return es[:o['before']] + [pupil] + es[o['before']:]
         for k, o in enumerate(c['orders']):
-            es = [tilt_obj(lentil, c['elems'][i]) for i in o['perm']]
-            guard(f'plane{k}', lambda es=es, o=o: run_rep(lentil, c, st, None,
-                                                          es[:o['before']] + [mk_pupil(lentil, c, st, opd_seg)] + es[o['before']:]))
-        guard('wavefront', lambda: run_rep(lentil, c, st, (st['ag'], st['bg']), [mk_pupil(lentil, c, st, opd_seg)]))
+            guard(f'plane{k}', lambda o=o: run_rep(lentil, c, st, None, plane_chain(o)))
+        guard('wavefront', lambda: run_rep(lentil, c, st, (st['ag'], st['bg']), [pupil]))
 
         def fit_rep():
             o0, ds = fit_opds(c, st)
@@ -617,8 +683,10 @@ def run_impl(c):
             (a0, b0), (a1, b1), rest = mixed_parts(c, st)
             mo = opd_seg + st['gm'] * ramp(c['m'], c['n'], a1, b1, c['dx'])
             p = mk_pupil(lentil, c, st, mo).fit_tilt()
-            return run_rep(lentil, c, st, (a0, b0), [p] + [tilt_obj(lentil, e) for e in rest])
+            return run_rep(lentil, c, st, (a0, b0), [p] + objs[2:])
         guard('mixed', mixed_rep)
+        # the first chain once more, after everything else ran on the same objects
+        guard('again', lambda: run_rep(lentil, c, st, None, plane_chain(c['orders'][0])))
         return res
     return {'err': 'unknown op'}
 
@@ -741,6 +809,18 @@ def window_mask(shape, ext):
     return w
 
 
+def must_evaluate(shape, P, s, eps=1e-9):
+    """output samples inside the centred P box translated by t, for every integer t between floor(s) and ceil(s)"""
+    need = []
+    for ax in (0, 1):
+        lo_t, hi_t = math.floor(s[ax] - eps), math.ceil(s[ax] + eps)
+        lo = hi_t - P[ax] // 2                       # first coordinate covered for the largest translation
+        hi = lo_t - P[ax] // 2 + P[ax] - 1           # last coordinate covered for the smallest translation
+        idx = np.arange(shape[ax]) - shape[ax] // 2
+        need.append((idx >= lo) & (idx <= hi))
+    return np.outer(need[0], need[1])
+
+
 def oracle(c, impl):
     if c['op'] == 'wave':
         if c['tilt'] is not None and len(c['tilt']) != 2:
@@ -808,6 +888,11 @@ def oracle(c, impl):
         P = (c['prop_shape'] or c['shape'])
         dur, duc = fl(c['du'][0]), fl(c['du'][1])
         gshift = (-sum(v[1] for v in st['xy']) / dur * c['os'], sum(v[0] for v in st['xy']) / duc * c['os'])
+        obox = np.ones(shape, dtype=bool)
+        if (c.get('forms') or {}).get('omask'):
+            r0, r1, c0, c1, _ = c['forms']['omask']       # with mask= the output box is the mask's bounding box
+            obox[:] = False
+            obox[r0:r1 + 1, c0:c1 + 1] = True
         for name in rep_names(c):
             r = impl.get(name)
             if r is None or 'err' in r:
@@ -821,10 +906,28 @@ def oracle(c, impl):
                 for ext in r['per_field'][k]:
                     wk |= window_mask(shape, ext)
                 exp += np.where(wk, E[k], 0)
+                if (wk & ~obox).any():
+                    return f'{name}: segment {k}: samples outside the bounding box of the output mask were evaluated'
                 allw &= wk
+                # The window is not pinned (fix / floor / round of the shift are all admissible integer parts), but
+                # every output sample that lies in the propagation window translated by floor(s) AND by ceil(s)
+                # of the field's metadata shift s lies in it for every admissible choice, and must be evaluated.
+                if name == 'opd':
+                    ms = (0.0, 0.0)
+                elif name.startswith('plane') or name in ('wavefront', 'again'):
+                    ms = gshift
+                else:
+                    ms = r['shifts'][k]           # fit / mixed: the shift the field's own metadata reports
+                need = must_evaluate(shape, (P[0] * c['os'], P[1] * c['os']), ms) & obox
+                miss = need & ~wk
+                if miss.any():
+                    i = np.argwhere(miss)[0]
+                    return (f'{name}: segment {k} with tilt shift ({ms[0]:.6g}, {ms[1]:.6g}): {int(miss.sum())} of {int(need.sum())} output '
+                            f'samples that lie inside the displaced propagation window for every admissible integer part of '
+                            f'the shift are not evaluated (first: sample {int(i[0])},{int(i[1])}; {len(r["per_field"][k])} field(s) returned)')
                 # the sample the tilt metadata displaces the window centre to must be evaluated whenever it lies
                 # inside the output (the window itself is not pinned)
-                if name.startswith('plane') or name == 'wavefront':
+                if (name.startswith('plane') or name in ('wavefront', 'again')) and obox.all():
                     cr, cc_ = int(np.fix(gshift[0])) + shape[0] // 2, int(np.fix(gshift[1])) + shape[1] // 2
                     if min(P) * c['os'] >= 3 and 0 <= cr < shape[0] and 0 <= cc_ < shape[1] and not wk[cr, cc_]:
                         return f'{name}: the displaced window centre of segment {k} (sample {cr},{cc_}) is not evaluated'
@@ -848,7 +951,7 @@ def oracle(c, impl):
                     if name == 'opd':
                         if sh[ax] != 0:
                             return 'opd: a wavefront without tilt elements reports a shift'
-                    elif (name.startswith('plane') or name == 'wavefront') and not close(sh[ax], gshift[ax], TOL):
+                    elif (name.startswith('plane') or name in ('wavefront', 'again')) and not close(sh[ax], gshift[ax], TOL):
                         return (f'{name} field {k}: Field.shift axis {ax} is {sh[ax]!r}, the displacement formula gives '
                                 f'{gshift[ax]!r} for its tilt elements')
         return None
